@@ -335,6 +335,28 @@ func checkAccessors(v any) (fs []finding, stats map[string]int) {
 		})
 		stats["map.ok"] += b2i(wok)
 	}
+	// ---- Bind is an accessor too: it may fail, it must not panic (its results are C16's business)
+	guard("Result.Bind", func() {
+		var d any
+		_ = r.Bind(&d)
+		var m map[string]any
+		_ = r.Bind(&m)
+		var i int
+		_ = r.Bind(&i)
+		_ = r.Bind(nil)
+	})
+	guard("SharedStore.Bind", func() {
+		var d any
+		_ = s.Bind("k", &d)
+		_ = s.Bind("missing", &d)
+		var m map[string]any
+		_ = s.Bind("k", &m)
+		var i int
+		_ = s.Bind("k", &i)
+		var sl []any
+		_ = s.Bind("k", &sl)
+		_ = s.Bind("k", nil)
+	})
 	// ---- generic As / IsNil / Value / Type
 	guard("As", func() {
 		if x, ok := flyt.As[string](r); ok != (rt == reflect.TypeOf("")) || (ok && x != v.(string)) {
@@ -447,7 +469,7 @@ func statefulZoo() []zoo.Named {
 
 func runC15Stateful(c *Cfg) {
 	r := c.Rep
-	n := c.Pick(1500, 30000)
+	n := c.Pick(6000, 80000)
 	parallel(c, n, func(i int) {
 		cs := genStoreCase(c, 1_000_000+i, 120)
 		// interleave in-place mutations
@@ -503,7 +525,7 @@ func runC15(c *Cfg) {
 		r.Count("zoo.kind."+k, 1)
 	}
 	r.Sample("zoo", map[string]any{"names": zooNames(fixed)})
-	n := c.Pick(20000, 500000)
+	n := c.Pick(100000, 1500000)
 	parallel(c, n, func(i int) {
 		vc := ValCase{Family: "generated", Gen: i, Depth: 1 + i%4, Seed: c.Seed}
 		var v any
